@@ -102,6 +102,39 @@ func NewSpec(seed uint64, prop string) *Spec {
 		s.Roots = append(s.Roots, root)
 		s.PtrRoot[root.ID] = r.IntN(3) == 0
 	}
+	if prop == "C07" && r.IntN(2) == 0 {
+		// a chain of unnamed containers (all converted inline, inside one generated method)
+		// ending in an unnamed struct with several fallible fields: long location paths
+		root := s.Roots[r.IntN(len(s.Roots))]
+		root.Fields = append(root.Fields, s.mkField(len(root.Fields), s.genChain(1+r.IntN(6)), root))
+	}
+	if prop == "C04" && s.SkipCopyMode == "methods" {
+		// one nested named pair with identical-type containers, reachable from two roots
+		for len(s.Roots) < 2 {
+			root := s.genStruct(0)
+			s.Roots = append(s.Roots, root)
+		}
+		sh := &node{Kind: "struct", ID: s.id()}
+		s.Structs[sh.ID] = sh
+		for i, e := range []*node{
+			{Kind: "slice", Elem: &node{Kind: "basic", Basic: "int"}},
+			{Kind: "ptr", Elem: &node{Kind: "basic", Basic: "string"}},
+			{Kind: "map", Key: &node{Kind: "basic", Basic: "string"}, Elem: &node{Kind: "basic", Basic: "int64"}},
+		} {
+			sh.Fields = append(sh.Fields, &field{Name: fmt.Sprintf("F%d", i), TName: fmt.Sprintf("F%d", i), N: e})
+		}
+		for i, root := range s.Roots {
+			ref := &node{Kind: "ref", ID: sh.ID}
+			var n *node = ref
+			switch (i + r.IntN(3)) % 3 {
+			case 1:
+				n = &node{Kind: "ptr", Elem: ref}
+			case 2:
+				n = &node{Kind: "slice", Elem: ref}
+			}
+			root.Fields = append(root.Fields, &field{Name: fmt.Sprintf("F%d", len(root.Fields)), TName: fmt.Sprintf("F%d", len(root.Fields)), N: n})
+		}
+	}
 	s.MethodSkip = map[string]bool{}
 	if s.SkipCopyMode == "methods" {
 		for _, m := range s.methods(false) {
@@ -599,4 +632,39 @@ func (s *Spec) SkipInvolved(m methodSpec) bool {
 		}
 	}
 	return false
+}
+
+// genChain builds n levels of unnamed containers around an unnamed struct whose fields
+// are mostly fallible leaves.
+func (s *Spec) genChain(n int) *node {
+	r := s.rng
+	inner := &node{Kind: "ustruct"}
+	nf := 2 + r.IntN(3)
+	for i := 0; i < nf; i++ {
+		var fn *node
+		if r.IntN(4) != 0 {
+			fn = s.leafNoMap()
+		} else {
+			fn = &node{Kind: "basic", Basic: basics[r.IntN(len(basics))]}
+		}
+		inner.Fields = append(inner.Fields, &field{Name: fmt.Sprintf("U%d", i), TName: fmt.Sprintf("U%d", i), N: fn})
+	}
+	cur := inner
+	for i := 0; i < n; i++ {
+		switch r.IntN(4) {
+		case 0:
+			cur = &node{Kind: "slice", Elem: cur}
+		case 1:
+			cur = &node{Kind: "map", Key: &node{Kind: "basic", Basic: []string{"string", "int"}[r.IntN(2)]}, Elem: cur}
+		case 2:
+			if cur.Kind != "ptr" {
+				cur = &node{Kind: "ptr", Elem: cur}
+			} else {
+				cur = &node{Kind: "slice", Elem: cur}
+			}
+		default:
+			cur = &node{Kind: "ustruct", Fields: []*field{{Name: "W0", TName: "W0", N: cur}, {Name: "W1", TName: "W1", N: &node{Kind: "basic", Basic: "int"}}}}
+		}
+	}
+	return cur
 }
